@@ -122,7 +122,7 @@ def value_case(draw):
     if spec[0] in ("callable",) and dtype in ("bool", "int"):
         dtype = None  # polynomial values at cell centres are not integers
     return {"g": g, "subs": subs, "nvdim": nvdim, "vdims": draw(gen.vdims_strategy(nvdim)), "dtype": dtype,
-            "spec": spec, "via": draw(st.sampled_from(["init", "update", "array"]))}
+            "spec": spec, "via": ["init", "update", "array", "update"][(mix // 64) % 4]}
 
 
 # --------------------------------------------------------------------------- reference evaluator
@@ -397,7 +397,7 @@ def _field_from_seed(case, mesh, lat):
             if case["mapping"] == "partial":
                 mapping = {v: (t if i % 2 == 0 else None) for i, (v, t) in enumerate(mapping.items())}
         kw["vdim_mapping"] = gen.shuffled_mapping(mapping, case.get("perm_seed", 0) + 3)
-    f = df.Field(mesh, nvdim=nvdim, value=arr, dtype=DTYPES[dt], unit=case.get("unit"),
+    f = df.Field(mesh, nvdim=nvdim, value=np.array(arr, copy=True), dtype=DTYPES[dt], unit=case.get("unit"),
                  valid=gen.make_mask(case.get("mask", ["all"]), lat.n), **kw)
     return f, arr
 
